@@ -454,6 +454,30 @@ func checkSVG(ctx *Ctx, r *Report) {
 	// (field[*]<leaf>) to the term stored there (over the endpoints pa, pb)
 	evL := newEval(ctx)
 	_, stL := evL.evalRoot(lfn)
+	// the running extent: the vector-valued fields of the receiver that Line folds with
+	// math.Min (lower corner) and math.Max (upper corner), whatever they are called
+	loF, hiF := "min", "max"
+	for o, v := range stL.mem {
+		if o.name != recv {
+			continue
+		}
+		all := map[string]*Term{}
+		leafTerms("", v, all)
+		for k, t := range all {
+			if !strings.HasSuffix(k, ".X") {
+				continue
+			}
+			hasMin := len(findSub(t, func(x *Term) bool { return x.Op == "call" && x.S == "math.Min" })) > 0
+			hasMax := len(findSub(t, func(x *Term) bool { return x.Op == "call" && x.S == "math.Max" })) > 0
+			path := strings.TrimPrefix(strings.TrimSuffix(k, ".X"), ".")
+			switch {
+			case hasMin && !hasMax:
+				loF = path
+			case hasMax && !hasMin:
+				hiF = path
+			}
+		}
+	}
 	stored := map[string]*Term{}
 	bases := map[string]bool{}
 	perAppend := true
@@ -499,7 +523,7 @@ func checkSVG(ctx *Ctx, r *Report) {
 	if okS {
 		w, _ := stv[0].Args[1].(*Term)
 		h, _ := stv[0].Args[2].(*Term)
-		okS = w != nil && h != nil && equalRat(w, Sub(A(srecv+".max.X"), A(srecv+".min.X"))) && equalRat(h, Sub(A(srecv+".max.Y"), A(srecv+".min.Y")))
+		okS = w != nil && h != nil && equalRat(w, Sub(A(srecv+"."+hiF+".X"), A(srecv+"."+loF+".X"))) && equalRat(h, Sub(A(srecv+"."+hiF+".Y"), A(srecv+"."+loF+".Y")))
 	}
 	r.check("X3", "SVG.Save|canvas-is-the-drawing-extent", sfn.Pos(), okS, "Start(max.X−min.X, max.Y−min.Y)")
 	okL := len(ln) == 1
@@ -551,7 +575,7 @@ func checkSVG(ctx *Ctx, r *Report) {
 			got[i] = back(t)
 		}
 		if okL {
-			want := [4]*Term{Sub(A(pa+".X"), A(srecv+".min.X")), Sub(A(srecv+".max.Y"), A(pa+".Y")), Sub(A(pb+".X"), A(srecv+".min.X")), Sub(A(srecv+".max.Y"), A(pb+".Y"))}
+			want := [4]*Term{Sub(A(pa+".X"), A(srecv+"."+loF+".X")), Sub(A(srecv+"."+hiF+".Y"), A(pa+".Y")), Sub(A(pb+".X"), A(srecv+"."+loF+".X")), Sub(A(srecv+"."+hiF+".Y"), A(pb+".Y"))}
 			for i := range want {
 				if !equalRat(got[i], want[i]) {
 					okL = false
@@ -574,11 +598,19 @@ func checkSVG(ctx *Ctx, r *Report) {
 		r.undecided("X3", "SVG.Line", lfn.Pos(), "receiver state not found")
 		return
 	}
-	mn, _ := fieldOf(sv, "min")
-	mx, _ := fieldOf(sv, "max")
 	mm := map[string]*Term{}
-	leafTerms("min", mn, mm)
-	leafTerms("max", mx, mm)
+	{
+		all := map[string]*Term{}
+		leafTerms("", sv, all)
+		for k, t := range all {
+			switch {
+			case strings.HasPrefix(k, "."+loF+"."):
+				mm["min"+strings.TrimPrefix(k, "."+loF)] = t
+			case strings.HasPrefix(k, "."+hiF+"."):
+				mm["max"+strings.TrimPrefix(k, "."+hiF)] = t
+			}
+		}
+	}
 	// the "first line" test: the storage is still empty
 	var first *Term
 	for _, c := range evL.BranchConds {
@@ -598,7 +630,7 @@ func checkSVG(ctx *Ctx, r *Report) {
 			later := assume(t, map[string]bool{first.Key(): false})
 			ls := map[string]bool{}
 			minLeaves(later, w.fn, ls)
-			want := map[string]bool{recv + "." + w.f + "." + c: true, pa + "." + c: true, pb + "." + c: true}
+			want := map[string]bool{recv + "." + map[string]string{"min": loF, "max": hiF}[w.f] + "." + c: true, pa + "." + c: true, pb + "." + c: true}
 			if fmt.Sprint(sortedKeys(ls)) != fmt.Sprint(sortedKeys(want)) {
 				okFold = false
 				detail += fmt.Sprintf(" %s.%s folds %v;", w.f, c, sortedKeys(ls))
